@@ -739,6 +739,8 @@ func ruleSMProgress(w *World, r *RuleResult) {
 						switch {
 						case !tested && p.End == "ret" && stripConv(p.Ret[0]).Op == "nil":
 							d.add(true, key, pos, "stops right after", "")
+						case !tested && carriedAndTested(w, s, paths, p, eofT):
+							d.add(true, key, pos, "the end-of-input result is carried to the loop test, which leaves the loop on it and stops", "")
 						case !tested:
 							d.add(false, key, pos, "", "the end-of-input result of next() is ignored on a path that keeps going: at EOF the look-ahead stops changing and the state loops forever")
 						case isEOF:
@@ -1669,4 +1671,37 @@ func sendOf(w *World, e *Event) (*T, bool) {
 		}
 	}
 	return nil, false
+}
+
+// carriedAndTested: on back-edge path p the value t (an end-of-input result)
+// flows into a loop-carried variable; some path of the function tests that
+// variable true and then stops the machine (returns nil) without consuming again.
+func carriedAndTested(w *World, fn *ssa.Function, paths []*Path, p *Path, t *T) bool {
+	if p.End != "backedge" {
+		return false
+	}
+	be := p.Events[len(p.Events)-1]
+	var phis []*ssa.Phi
+	for _, in := range fn.Blocks[int(be.Res.C)].Instrs {
+		if ph, ok := in.(*ssa.Phi); ok {
+			phis = append(phis, ph)
+		}
+	}
+	for i, a := range be.Args {
+		if i >= len(phis) || stripConv(a).Key() != t.Key() {
+			continue
+		}
+		lvKey := (&T{Op: "loopvar", S: phis[i].Comment, C: be.Res.C, Ty: phis[i].Type()}).Key()
+		for _, q := range paths {
+			if q.End != "ret" || len(q.Ret) != 1 || stripConv(q.Ret[0]).Op != "nil" {
+				continue
+			}
+			for _, cd := range q.Conds {
+				if cd.Atom.Key() == lvKey && cd.Val {
+					return true
+				}
+			}
+		}
+	}
+	return false
 }
